@@ -72,6 +72,20 @@ impl State {
             (Self::ReadClosed, Flag::StopSending) => {
                 *self = Self::BothClosed { reset: false };
             }
+            (
+                Self::ClosingWrite {
+                    read_closed: false,
+                    inner,
+                },
+                Flag::Fin,
+            ) => {
+                // The remote closed its write half while we are closing ours: remember it,
+                // otherwise the FIN is lost and the read half stays open forever.
+                *self = Self::ClosingWrite {
+                    read_closed: true,
+                    inner,
+                };
+            }
             (_, Flag::Reset) => {
                 buffer.clear();
                 *self = Self::BothClosed { reset: true };
